@@ -31,7 +31,9 @@ let rl_of s = if s = "F" then RlFail else RlCur (z_of_string s)
 let stack_case line =
   match split_on ' ' line with
   | ["st"; page; psm; rl; flag; req] ->
-      zs (stack_size_applied (z_of_string page) (z_of_string psm) (rl_of rl) (flag = "1") (z_of_string req))
+      (match stack_size_applied (z_of_string page) (z_of_string psm) (rl_of rl) (flag = "1") (z_of_string req) with
+       | Some r -> zs r
+       | None -> "einval")
   | ["ts"; page; psm; rl] ->
       zs (thread_stack_size (z_of_string page) (z_of_string psm) (rl_of rl))
   | _ -> failwith ("bad stack case " ^ line)
